@@ -151,6 +151,60 @@ func corpus() []corpusCase {
 		corpusCase{name: "S5-evict-commit-evict-stale-copy-commit", wf: true, c: twice(),
 			cmds: []cmdSpec{ev("a-0"), commit, stale("a-0"), ev("f-0"), stale("a-0"), commit}},
 	)
+	// Erasure: an abandoned what-if step must leave no trace in what is decided and emitted afterwards. E1 is the
+	// scenario of seeded/C13-2/README.md: two nodes with one GPU of 8000 / 16000 MiB, one Pending pod asking for
+	// 4000 MiB of GPU memory (half a GPU on node-8g, a quarter on node-16g); it is placed on node-8g, that step is
+	// rolled back, it is placed on node-16g and committed. The Bind must carry portion 0.25 and the queue must be
+	// charged 0.25 GPUs, as when the pod is placed on node-16g straight away.
+	gnode := func(name string, gpus, mem int64) core.NodeSpec {
+		return core.NodeSpec{Name: name, Cpu: 16000, Mem: 64 << 30, Gpus: gpus, Pods: 110, GpuMem: mem}
+	}
+	readme := func() cycle.Cluster {
+		c := base([]core.NodeSpec{gnode("node-8g", 1, 8000), gnode("node-16g", 1, 16000)},
+			job1("pending_job0", core.PodSpec{GpuMemory: 4000, Status: pend}))
+		c.Queues[0].Deserved = 2
+		return c
+	}
+	al := func(p, n string, gs ...string) cmdSpec {
+		return cmdSpec{Kind: "allocate", Pod: p, Node: n, HasGroups: len(gs) > 0, Groups: gs}
+	}
+	p0 := "pending_job0-0"
+	hetero3 := func() cycle.Cluster {
+		return base([]core.NodeSpec{gnode("n1", 2, 100), gnode("n2", 2, 200), gnode("n3", 2, 400)},
+			job1("a", core.PodSpec{GpuMemory: 50, Status: run, Node: "n1", Groups: []string{"n1-G1"}}),
+			job1("b", core.PodSpec{GpuMemory: 50, Status: pend}),
+			job1("c", core.PodSpec{Fraction: "0.25", Status: run, Node: "n2", Groups: []string{"n2-G1"}}),
+			job1("d", core.PodSpec{Gpus: 1, Status: pend}))
+	}
+	again = append(again,
+		corpusCase{name: "E1-readme-allocate-8g-rollback-allocate-16g-commit", wf: true, c: readme(),
+			cmds: []cmdSpec{cp, al(p0, "node-8g", "x1"), rb(1), al(p0, "node-16g", "x2"), commit}},
+		corpusCase{name: "E2-readme-pipeline-8g-rollback-pipeline-16g-commit", wf: true, c: readme(),
+			cmds: []cmdSpec{cp, back(p0, "node-8g", "x1"), rb(1), back(p0, "node-16g", "x2"), commit}},
+		corpusCase{name: "E3-readme-allocate-8g-discard-allocate-16g-commit", wf: true, c: readme(),
+			cmds: []cmdSpec{al(p0, "node-8g", "x1"), discard, al(p0, "node-16g", "x2"), commit}},
+		corpusCase{name: "E4-readme-allocate-16g-rollback-allocate-8g-commit", wf: true, c: readme(),
+			cmds: []cmdSpec{cp, al(p0, "node-16g", "x1"), rb(1), al(p0, "node-8g", "x2"), commit}},
+		corpusCase{name: "E5-readme-nested-8g-16g-8g-rollbacks-allocate-16g-commit", wf: true, c: readme(),
+			cmds: []cmdSpec{cp, al(p0, "node-8g", "x1"), rb(1), cp, back(p0, "node-16g", "x2"), cp, rb(2), rb(1), cp, al(p0, "node-8g", "x3"), rb(1),
+				al(p0, "node-16g", "x4"), commit}},
+		corpusCase{name: "E6-readme-pipeline-8g-rollback-allocate-16g-convert-commit", wf: true, c: readme(),
+			cmds: []cmdSpec{cp, back(p0, "node-8g", "x1"), rb(1), al(p0, "node-16g", "x2"), {Kind: "convert", Job: "pending_job0"}, commit}},
+		corpusCase{name: "E7-readme-bind-refused-after-abandoned-placement", wf: true, c: readme(), fails: map[int]bool{0: true},
+			cmds: []cmdSpec{cp, al(p0, "node-8g", "x1"), rb(1), al(p0, "node-16g", "x2"), commit}},
+		corpusCase{name: "E8-evicted-gpu-memory-pod-tried-on-two-other-sizes-then-third", wf: true, c: hetero3(),
+			cmds: []cmdSpec{ev("a-0"), cp, back("a-0", "n2", "x1"), rb(1), cp, back("a-0", "n3", "x2"), rb(1), back("a-0", "n2", "n2-G1"),
+				cp, al("b-0", "n3", "x3"), al("d-0", "n3"), rb(2), back("b-0", "n1", "n1-G1"), commit}},
+		corpusCase{name: "E9-two-statements-abandoned-placements-in-both", wf: true, c: hetero3(),
+			cmds: []cmdSpec{cp, al("b-0", "n1", "x1"), rb(1), al("d-0", "n2"), commit, cp, al("b-0", "n3", "x2"), ev("c-0"), rb(1), al("b-0", "n2", "x3"),
+				ev("a-0"), discard, back("b-0", "n3", "x4"), commit}},
+		// the witness of C13_erasure_refuted on the real Statement: an evicted fractional pod is nominated on
+		// another node with fresh devices, the nomination is rolled back (the pod keeps the assigned GPU groups,
+		// W2), the eviction is committed: the pod ends Releasing with the GPU groups of the abandoned nomination
+		corpusCase{name: "E10-evicted-fraction-keeps-groups-of-abandoned-nomination-after-commit", wf: true,
+			c:    base(n2, job1("a", frac(run, "n1", "n1-G1"))),
+			cmds: []cmdSpec{ev("a-0"), cp, back("a-0", "n2", "x1"), rb(1), commit}},
+	)
 	return append(again, []corpusCase{
 		{name: "W1-device-guard", wf: true,
 			c: base(n1, job1("a", frac(run, "n1", "n1-G1")), job1("b", whole(rel, "n1", 1)), job1("c", whole(run, "n1", 1)), job1("d", whole(pend, "", 2))),
